@@ -695,6 +695,142 @@ def run_subs(ck, hbin, lines, meta):
     return ok
 
 
+# ---------------------------------------------------------------------------------- RNG::uniformInt on adversarial draws
+def mt_untemper(y):
+    """inverse of the std::mt19937 tempering"""
+    y &= 0xFFFFFFFF
+    y ^= y >> 18
+    y ^= (y << 15) & 0xEFC60000
+    t = y
+    for _ in range(5):
+        t = y ^ ((t << 7) & 0x9D2C5680)
+    y = t & 0xFFFFFFFF
+    t = y
+    for _ in range(3):
+        t = y ^ (t >> 11)
+    return t & 0xFFFFFFFF
+
+
+def mt_temper(z):
+    z ^= (z >> 11) & 0xFFFFFFFF
+    z ^= (z << 7) & 0x9D2C5680
+    z ^= (z << 15) & 0xEFC60000
+    z ^= z >> 18
+    return z & 0xFFFFFFFF
+
+
+INT_MAX, INT_MIN = 2 ** 31 - 1, -2 ** 31
+
+
+def uint_ranges(r):
+    base = r.choice([2 ** 30, -(2 ** 31 - 2), 2 ** 30 + 12345, -(2 ** 30), 2 ** 31 - 5, -(2 ** 31) + 1, 2 ** 29, 10 ** 9,
+                     -(10 ** 9), 2 ** 24, 0, 7, -3, INT_MIN, INT_MAX - 1])
+    c = r.below(10)
+    if c < 4:
+        return base, base                                   # zero width
+    if c < 7:
+        return base, min(base + r.choice([1, 2, 3, 7]), INT_MAX - 1)      # narrow
+    if c == 7:
+        return min(base, 0), max(base, 0)                   # wide
+    if c == 8:
+        return INT_MIN, INT_MAX - 1
+    return r.range(-20, 20), r.range(21, 1000)
+
+
+def uint_draw_words(r):
+    """(x0, x1): the two mt19937 outputs that generate_canonical turns into u = (x0 + x1*2^32) / 2^64"""
+    c = r.below(10)
+    if c < 3:
+        return 0xFFFFF800, 0xFFFFFFFF                       # u = nextafter(1, 0) exactly
+    if c == 3:
+        return 0xFFFFFFFF, 0xFFFFFFFF                       # rounds to 1.0 -> libstdc++ returns nextafter(1, 0)
+    if c < 6:
+        k = r.range(1, 4096)
+        v = 2 ** 64 - k * 2 ** 11                           # u = 1 - k * 2^-53
+        return v & 0xFFFFFFFF, v >> 32
+    if c == 6:
+        return 0, 0                                         # u = 0
+    if c == 7:
+        return r.below(2 ** 32), 0xFFFFFFFF - r.below(2 ** 12)   # u within 2^-20 of 1
+    if c == 8:
+        return r.below(2 ** 32), 0x80000000                 # u about 1/2
+    return r.below(2 ** 32), r.below(2 ** 32)
+
+
+def gen_uint_op(r, counts, lo=None, hi=None, words=None, mode=None):
+    if lo is None:
+        lo, hi = uint_ranges(r)
+    x0, x1 = words or uint_draw_words(r)
+    mode = mode or r.choice(["h", "s", "c"])
+    counts("uint:" + mode)
+    counts("uint-range:" + ("zero-width" if lo == hi else "narrow" if hi - lo < 10 else "wide"))
+    return "uint %s %d %d %d %d" % (mode, lo, hi, mt_untemper(x0), mt_untemper(x1)), {"lo": lo, "hi": hi, "mode": mode, "x": (x0, x1)}
+
+
+def directed_uint_ops(counts):
+    """the inputs of seeded change s4 and the int edges, every mode"""
+    out = []
+    one_ulp = (0xFFFFF800, 0xFFFFFFFF)
+    for lo, hi in [(2 ** 30, 2 ** 30), (-(2 ** 31 - 2), -(2 ** 31 - 2)), (2 ** 30, 2 ** 30 + 2), (-(2 ** 31 - 2), -(2 ** 31 - 3)),
+                   (INT_MAX - 1, INT_MAX - 1), (INT_MIN, INT_MIN), (0, 0), (0, 9), (-2 ** 29, 2 ** 29), (INT_MIN, INT_MAX - 1),
+                   (INT_MAX, INT_MAX), (INT_MAX - 3, INT_MAX)]:
+        for mode in ("h", "s", "c"):
+            for words in (one_ulp, (0, 0), (0, 0x80000000)):
+                out.append(gen_uint_op(None, counts, lo, hi, words, mode))
+    return out
+
+
+def run_uint(ck, hbin, lines, meta):
+    impl, rc, err, model = ck.run_pair(hbin, DRIVER, lines)
+    impl = impl or []
+    ck.traces_validated += 1
+    ok = True
+    if rc != 0:
+        ck.report({"engine": "spacebounds", "clause": "harness-exit", "what": "harness exited with %s on uint runs" % rc},
+                  script=lines, observed=(err or "")[-2000:], engine="spacebounds")
+        return False
+    nrep = 0
+    for i, m in enumerate(meta):
+        line = impl[i] if i < len(impl) else "<missing>"
+        mo = model[i] if i < len(model) else "<missing>"
+        ck.case(("uint", lines[i + 1]), True)
+        h = kv(line)
+        hm = kv(mo)
+        try:
+            rv = int(h["r"])
+        except Exception:
+            rv = None
+        # executed witness at Float: without the clamp the model leaves [2^30, 2^30] on u = nextafter(1, 0)
+        if m["lo"] == m["hi"] == 2 ** 30 and m["x"] == (0xFFFFF800, 0xFFFFFFFF):
+            ck.count("uint:executed-witness-without-clamp")
+            if hm.get("nc") != str(2 ** 30 + 1):
+                ck.report({"kind": "obligation", "what": "executed witness"}, script=[lines[0], lines[i + 1]], observed=[mo],
+                          found_input=False, engine="spacebounds",
+                          obligation="uniformIntNoClamp (2^30) (2^30) (nextafter 1 0) at Float should be 2^30+1, model printed %r" % hm.get("nc"))
+                ok = False
+        if rv is None or not (m["lo"] <= rv <= m["hi"]):
+            cls = "upper-bound-INT_MAX" if m["hi"] == INT_MAX else "generic"
+            rec = {"engine": "spacebounds", "op": "uint", "clause": "uniformInt-in-range", "mode": m["mode"], "input_class": cls,
+                   "what": "RNG::uniformInt(%d, %d) returned %s on the draw u = %r (%s)" % (
+                       m["lo"], m["hi"], h.get("r"), bf(h["u"]) if "u" in h else None,
+                       {"h": "inline header function", "s": "DiscreteStateSampler::sampleUniform", "c": "compound [R^1, discrete] sampler"}[m["mode"]])}
+            if ck.report(rec, script=[lines[0], lines[i + 1]], expected=[mo], observed=[line], engine="spacebounds"):
+                ck.log("property failure: " + rec["what"])
+                ok = False
+                nrep += 1
+        elif (h.get("r"), h.get("u")) != (hm.get("r"), hm.get("u")):
+            ck.disagreements += 1
+            ck.report({"engine": "spacebounds", "op": "uint", "what": "model/implementation disagreement"},
+                      script=[lines[0], lines[i + 1]], expected=[mo], observed=[line], found_input=False, engine="spacebounds",
+                      obligation="correspondence spacebounds: RNG::uniformInt / uniform01 vs OmplModel.Model.SpaceBounds.uniformInt + OmplModel.Rng.uni01")
+            ck.log("correspondence disagreement on a uint line; oracle passes (%s / %s)" % (line, mo))
+            ok = False
+            nrep += 1
+        if nrep >= 3:
+            break
+    return ok
+
+
 def gen_cmps_op(r, counts):
     while True:
         sp = multibody_space(r) if r.chance(1, 4) else gen_space(r)
@@ -1536,6 +1672,12 @@ def run(ck):
             meta.append(m)
         run_subs(ck, hbin, lines, meta)
         ck.count("scripts:subs")
+    ops = directed_uint_ops(counts)
+    r = ck.rng.fork("uint")
+    for _ in range(1500 if quick else 20000):
+        ops.append(gen_uint_op(r, counts))
+    run_uint(ck, hbin, ["spacebounds seed=1"] + [o[0] for o in ops], [o[1] for o in ops])
+    ck.count("scripts:uint")
     for i in range(2 if quick else 8):
         r = ck.rng.fork("cmps%d" % i)
         lines = ["spacebounds seed=1"]
